@@ -419,6 +419,40 @@ def integrateN (guard : Bool) (step : StepFn K) (env : Nat → Flags) (fuel : Na
   if guard && fne tmax tmax then .done { s with status := stGENERIC_ERROR }
   else integrate step env fuel s tmax tmaxInf
 
+/-! ### the no-progress guard as of /repo commit addb1f3 (rebound.c:841-848, 886-888)
+
+  After every step the loop records `no_progress = (t == t_before && dt == dt_before && tmax != INFINITY)`;
+  when `reb_check_exit` of the next pass still says "continue", the error is raised (message, status
+  GENERIC_ERROR, `break`).  So a stalled step that `reb_check_exit` can end (LAST_STEP inside the 1e-12
+  window, any exit code) ends as it did without the guard.  (The first version of the guard, 0a3347a,
+  raised the error inside the step — `Flags.stepError` — and is still recognised by the translator.) -/
+
+/-- `loop` with the guard; the third component says whether the guard ended the call -/
+def loopG (step : StepFn K) (env : Nat → Flags) (tmax : K) (tmaxInf : Bool) :
+    Nat → Nat → Bool → Sim K → K → Outcome K × K × Bool
+  | 0, _, _, s, lf => (.outOfFuel s, lf, false)
+  | fuel + 1, k, noProgress, s, lf =>
+    match checkExit s tmax tmaxInf lf (env k) with
+    | .blocked s' => (.blocked s', lf, false)
+    | .ret s' lf' =>
+      if s'.status < 0 then
+        if noProgress then (.done { s' with status := stGENERIC_ERROR }, lf', true)
+        else
+          let s2 := stepAndBeat step k s' (env (k + 1))
+          loopG step env tmax tmaxInf fuel (k + 1) (feq s2.t s'.t && feq s2.dt s'.dt && !tmaxInf) s2 lf'
+      else (.done s', lf', false)
+
+/-- `reb_simulation_integrate` of commit addb1f3 (`nanGuard`: with the NaN-target check) -/
+def integrateG (nanGuard : Bool) (step : StepFn K) (env : Nat → Flags) (fuel : Nat) (s : Sim K) (tmax : K)
+    (tmaxInf : Bool) : Outcome K × Bool :=
+  if nanGuard && fne tmax tmax then (.done { s with status := stGENERIC_ERROR }, false)
+  else
+    let (s1, lf) := start s tmax (env 0)
+    match loopG step env tmax tmaxInf fuel 0 false s1 lf with
+    | (.done s', lf', g) => (.done (finish s' lf'), g)
+    | (.blocked s', _, g) => (.blocked s', g)
+    | (.outOfFuel s', _, g) => (.outOfFuel s', g)
+
 /-- `loop` with key presses: `ctl k` are the keys delivered while the integrator is at boundary `k`
     (before `reb_check_exit` is entered, and while it waits) -/
 def loopP (step : StepFn K) (env : Nat → Flags) (ctl : Nat → List Ctl × List Ctl) (tmax : K) (tmaxInf : Bool) :
